@@ -167,6 +167,21 @@ func (sidEngine) Run(ctx *fw.Ctx, cs any) {
 			}
 		}
 	} else {
+		// "every DHCPv4 reply carries its address": also when other plugins follow server_id in the chain
+		if rng.Intn(2) == 0 {
+			var extra []PlugConf
+			for _, name := range []string{"netmask", "router", "dns", "mtu", "lease_time", "searchdomains", "staticroute", "sleep"} { // (not autoconfigure/ipv6only: they drop or end the chain by design)
+				if rng.Intn(3) == 0 {
+					extra = append(extra, PlugConf{name, validArgs(rng, name, false)})
+				}
+			}
+			rng.Shuffle(len(extra), func(a, b int) { extra[a], extra[b] = extra[b], extra[a] })
+			if rng.Intn(2) == 0 {
+				extra = append(extra, PlugConf{"nbp", []string{[]string{"tftp://10.0.0.254/pxelinux.0", "tftp://boot.example.org/x", "http://10.0.0.254/ipxe.efi"}[rng.Intn(3)]}})
+			}
+			chain = append([]PlugConf{chain[0]}, extra...)
+			conf += fmt.Sprintf(" followed by %v", extra)
+		}
 		job.V4 = chain
 		own = net.ParseIP(c.Args[0]).To4()
 		other := []byte{own[0], own[1], own[2], own[3] ^ 0x01}
@@ -183,8 +198,9 @@ func (sidEngine) Run(ctx *fw.Ctx, cs any) {
 							opts = append(opts, pkt.O4(54, vals[on]...))
 						}
 						if rep%2 == 1 {
-							opts = append(opts, pkt.O4(55, 1, 3, 54))
+							opts = append(opts, pkt.O4(55, 1, 3, 54, 66, 67))
 						}
+						opts = append(opts, noise4(rng, true, true)...)
 						p := pkt.Request4(xid, []byte{2, 0, 0, 0, byte(rep), byte(xid)}, mt, opts...)
 						if sn != "absent" {
 							copy(p.Si[:], vals[sn])
